@@ -12,7 +12,10 @@ EXTENDS SeqViews, Music, TraceBase
 T_NoDefect == {}
 T_Max == 1000000
 
-ContentOf(evs, dur) == [bag |-> EventBag(evs), dur |-> dur, notes |-> Notes(evs)]
+(* notes are paired in a canonical order (by tick, a note-off before a note-on of the same tick): a set_channel that
+   fuses two channels can leave clashing notes, whose pairing in view order would depend on the view *)
+CanonLess(a, b) == a.t < b.t \/ (a.t = b.t /\ a.ty = "off" /\ b.ty # "off")
+ContentOf(evs, dur) == [bag |-> EventBag(evs), dur |-> dur, notes |-> Notes(SortSeq(evs, CanonLess))]
 ContentAbs(abs) == ContentOf(AbsEvents(abs), AbsDur(abs))
 ContentRel(rel) == ContentOf(RelEvents(rel), RelDur(rel))
 NoContent == [bag |-> <<>>, dur |-> -1, notes |-> {}]
